@@ -706,6 +706,10 @@ func (w *Reconciler) handleKillJob(
 	tasks []jobtasks.Task,
 ) (*execution.Job, error) {
 	if !shouldKillJob(rj) {
+		// The kill timestamp is in the future, come back when it has passed.
+		if ts := rj.Spec.KillTimestamp; !ts.IsZero() {
+			w.enqueueAfter(rj, "kill_timestamp", time.Until(ts.Time))
+		}
 		return rj, nil
 	}
 
